@@ -281,6 +281,10 @@ func runC04(c *Ctx) {
 		}
 	}
 
+	// ---- R6 unit steps skip single-byte characters
+	r6 := c.Rule("R6", "a unit step of both cursors steps over a byte below 0x80", 10)
+	c04UnitSteps(c, r6, lexT)
+
 	// ---- R4 positions are made by the lexer and copied from fresh tokens
 	r4 := c.Rule("R4", "positions come from the lexer; nodes do not share a token variable", 20)
 	posT := p.LookupType("ast", "Position")
